@@ -56,6 +56,7 @@ func init() {
 		"math/bits.Len16": func(in *Interp, fn *ssa.Function, a []Value) Value { return bitsLen(a[0].(*Term)) },
 		"math/bits.Len8":  func(in *Interp, fn *ssa.Function, a []Value) Value { return bitsLen(a[0].(*Term)) },
 		"math/bits.Len":   func(in *Interp, fn *ssa.Function, a []Value) Value { return bitsLen(a[0].(*Term)) },
+		"(github.com/ElrondNetwork/elrond-go/core.PeerID).Pretty": func(in *Interp, fn *ssa.Function, a []Value) Value { return concreteStr("<pid>") },
 		"bytes.Equal": func(in *Interp, fn *ssa.Function, a []Value) Value {
 			x, y := a[0].(Slice), a[1].(Slice)
 			if len(x.A) != len(y.A) {
@@ -101,12 +102,10 @@ func init() {
 	}{{"Int32", 32}, {"Uint32", 32}, {"Int64", 64}, {"Uint64", 64}} {
 		w := w
 		intrinsics["sync/atomic.Load"+w.n] = func(in *Interp, fn *ssa.Function, a []Value) Value {
-			in.yield()
 			return *(a[0].(*Value))
 		}
 		intrinsics["sync/atomic.Store"+w.n] = func(in *Interp, fn *ssa.Function, a []Value) Value { *(a[0].(*Value)) = a[1]; return nil }
 		intrinsics["sync/atomic.Add"+w.n] = func(in *Interp, fn *ssa.Function, a []Value) Value {
-			in.yield()
 			p := a[0].(*Value)
 			*p = BVBin("bvadd", (*p).(*Term), a[1].(*Term))
 			return *p
@@ -303,6 +302,11 @@ func (in *Interp) verifCall(fn *ssa.Function, args []Value) Value {
 		return nil
 	case "verifRaceCheck":
 		in.raceCheck()
+		return nil
+	case "verifGo":
+		f := args[0]
+		in.explore = true
+		in.spawn(func() { in.call(f, nil) })
 		return nil
 	case "verifExplore":
 		in.explore = true
